@@ -16,8 +16,11 @@ from cryptography import x509
 from cryptography.hazmat.primitives import hashes
 from cryptography.x509.oid import NameOID
 import datetime
+import time
 
 from mitmproxy import certs
+
+from vf.core import Inconclusive
 
 from vf.ref.c17_certcache import CertCacheModel, lookup_names
 
@@ -34,7 +37,7 @@ RULE = (
     "given as legacy str SAN), requests = (CN or None, 0-3 SANs), biased to re-request the newest, the oldest-still-cached "
     "and the just-evicted key; custom certificates registered under exact / wildcard / '*' specs and via their own CN/SANs "
     "at random points; distinct = (eviction bucket, hit bucket, kinds of custom registration matched, IP/wildcard/legacy/"
-    "no-CN request features, length class); non-trivial = the history caused >= 1 eviction and >= 1 cache hit. 35% of the "
+    "no-CN request features, length class); non-trivial = the history caused >= 1 eviction and >= 1 cache hit. Every third of the "
     "histories are 'focused': 30-100 calls over a 9-name pool from three zones, 2-4 CNs re-requested with changing SAN "
     "lists (0-2 SANs unrelated to the CN), 1-3 custom certificates (exact / covering wildcard / '*') for names of the same "
     "pool, a fresh CertStore per history in one process; such a history is non-trivial when a custom certificate was "
@@ -51,6 +54,8 @@ LEVEL_TEXT = (
     "call on the real object. Not exhaustive: histories are sampled from a fixed name universe."
 )
 LEVEL_NOTE = "Trusted: cryptography's X.509 parser (used to re-read the returned certificates), the FIFO reading of 'capacity'."
+
+SLOW_CALL = 0.25
 
 ZONES = ["example.com", "test.org", "a.b.example.com", "internal"]
 
@@ -118,7 +123,7 @@ def one_history(ctx, storedir):
     store = certs.CertStore.from_store(storedir, "mitmproxy", 2048)
     cap = certs.CertStore.STORE_CAP
     model = CertCacheModel(cap)
-    focused = r.random() < 0.35
+    focused = ctx.case_index % 3 == 0  # incl. the first history of every worker
     if focused:
         # small pool, few CNs re-used with changing SAN lists, custom certs for names of the same pool:
         # exercises "a custom certificate is only returned for the names of THIS request" across requests
@@ -150,8 +155,12 @@ def one_history(ctx, storedir):
     hist = []
     star_registered = False
 
+    slow = [0]
+
     def gen_request():
         x = r.random()
+        if slow[0] and recent:
+            return recent[-1][0], list(recent[-1][1]), False  # re-time the same lookup
         if model.fifo and x < 0.12:
             k = model.fifo[0]  # oldest still cached
         elif model.fifo and x < 0.22:
@@ -239,11 +248,20 @@ def one_history(ctx, storedir):
             was_cached = model.is_cached(cn, sans)
             org = "Org" if r.random() < 0.05 else None
             try:
+                t_call = time.monotonic()
                 entry = store.get_cert(cn, arg, org)
+                dt = time.monotonic() - t_call
             except Exception as e:
                 ctx.violation("get_cert-raises", {"cn": cn, "sans": sans, "exc": repr(e), "history_tail": hist[-5:]}, None)
                 hist.append(("get_cert", cn, sans, "EXC"))
                 continue
+            # a lookup normally takes < 1 ms; two consecutive calls > SLOW_CALL s mean the store degenerated
+            # (cannot be judged further, and continuing would exhaust memory/time): stop this worker gracefully.
+            slow[0] = slow[0] + 1 if dt > SLOW_CALL else 0
+            if slow[0] >= 2:
+                ctx.count("slow_get_cert_abort")
+                ctx.case(("aborted-slow", focused), nontrivial=False)
+                raise Inconclusive(f"get_cert took {dt:.2f}s twice in a row (normal < 1 ms); worker stopped after {ctx.evaluations} histories")
             keep.append(entry)
             key = model.key(cn, sans)
             recent.append(key)
